@@ -42,22 +42,23 @@ def entry(where, pid, task, *actions):
 
 
 def make_case(ncpu, n, slow=(), fault=None, seed=None, logs=True, variant='fast', api='parallelize', faults=None, rsize=0,
-              late_sentinel=()):
+              late_sentinel=(), slow_s=None):
     """slow: pids (0 = master) that sleep before their first task (a child without tasks sleeps between the
     result and the log sentinel instead).
     fault: None | {pid, point: 'task'|'queued', t, kind: 'raise'|'exit', code, flushed: bool, late: bool}; faults: several;
     rsize: payload bytes per result; late_sentinel: children that sleep between rqueue.put and the log sentinel"""
     ks = chunk_sizes(n, max(ncpu, 1))
     plan, msleep = [], {}
+    slow_s = SLOW if slow_s is None else slow_s
     for p in sorted(slow):
         if p == 0:
             if ks[0] > 0:
-                msleep[0] = SLOW
+                msleep[0] = slow_s
         elif p < ncpu:
             if ks[p] > 0:
-                plan.append(entry('task', p, 0, ('sleep', SLOW)))
+                plan.append(entry('task', p, 0, ('sleep', slow_s)))
             else:
-                plan.append(entry('queued', p, None, ('sleep', SLOW)))
+                plan.append(entry('queued', p, None, ('sleep', slow_s)))
     for p in sorted(late_sentinel):
         plan.append(entry('queued', p, None, ('sleep', SLOW)))
     for fault in ([fault] if fault is not None else []) + list(faults or []):
@@ -533,7 +534,10 @@ def _fault_variants(ncpu, n, fault):
     yield make_case(ncpu, n, fault=fault, variant='fast')
     yield make_case(ncpu, n, fault=dict(fault, late=True), variant='late-fault')
     others = [p for p in range(ncpu) if p != fault['pid']]
-    yield make_case(ncpu, n, slow=others, fault=fault, variant='others-slow')
+    # "the fault happens first" has to hold for a fault that is itself delayed (death after the result / the sentinel reached the
+    # pipe): the others are then slower than that delay, so that the faulty child is long dead when the master gets to it
+    delayed = fault['point'] in ('queued', 'done') and (fault.get('flushed', True) or fault.get('late'))
+    yield make_case(ncpu, n, slow=others, fault=fault, variant='others-slow', slow_s=(FAULT_DELAY + 3 * SLOW) if delayed else None)
 
 
 def run(ctx):
@@ -765,7 +769,9 @@ def run(ctx):
             timeouts[k] = timeouts.get(k, 0) + 1
 
     def stop(case):     # a class that already hung twice is not explored further (each hang costs the watchdog time)
-        return timeouts.get((case.get('api'), fault_class(case)), 0) >= 2
+        k = timeouts.get((case.get('api'), fault_class(case)), 0)
+        # … and once six runs have hung, a class is left after its first hang (watchdog budget of a badly broken tree)
+        return k >= 2 or (k >= 1 and sum(timeouts.values()) >= 6)
 
     for c in flat:
         if int(c.get('rsize') or 0) >= PIPE_BUF and 'watchdog' not in c:
